@@ -113,6 +113,13 @@ type c05Case struct {
 	// AuditRelevantOnly: SecAuditEngine RelevantOnly without a status pattern (a record is written iff a fired
 	// rule of THIS transaction asked for auditing)
 	AuditRelevantOnly bool    `json:"audit_relevant_only,omitempty"`
+	// ManyArgs: SecArgumentsLimit 2000 and predecessors carrying up to 150 distinct argument names (collections
+	// whose backing storage grew in an earlier transaction); CaseNames: the probe carries names that differ only
+	// in case, among them upper-case spellings of the steering names (what they select depends on whether the
+	// build treats argument names case sensitively: batches of the csargs flavour are built with
+	// coraza.rule.case_sensitive_args_keys)
+	ManyArgs  bool `json:"many_args,omitempty"`
+	CaseNames bool `json:"case_names,omitempty"`
 	Pred              []c05Tx `json:"predecessors"`
 	Probe             c05Tx   `json:"probe"`
 }
@@ -223,7 +230,11 @@ func c05Run(waf coraza.WAF, t *c05Tx, closeIt bool) (*c05Outcome, types.Transact
 			q += s + "=" + v
 		}
 		for _, e := range t.Extra {
-			q += "&" + e + "=z"
+			if strings.Contains(e, "=") {
+				q += "&" + e
+			} else {
+				q += "&" + e + "=z"
+			}
 		}
 		tx.ProcessURI("/probe?"+q, "POST", "HTTP/1.1")
 		tx.AddRequestHeader("Host", "h.example")
@@ -433,6 +444,13 @@ func c05Judge(w *fw.W, c *c05Case) {
 		conf = strings.Replace(conf, "SecAuditEngine On", "SecAuditEngine RelevantOnly", 1)
 		w.Count("cases_with_audit_relevant_only", 1)
 	}
+	if c.ManyArgs {
+		conf = strings.Replace(conf, "SecArgumentsLimit 40", "SecArgumentsLimit 2000", 1)
+		w.Count("cases_with_many_argument_names", 1)
+	}
+	if c.CaseNames {
+		w.Count("cases_with_case_variant_names", 1)
+	}
 	used, err := sl.BuildText(conf)
 	if err != nil {
 		w.Count("build_errors", 1)
@@ -531,7 +549,7 @@ func c05Judge(w *fw.W, c *c05Case) {
 func init() {
 	fw.Register(&fw.Prop{
 		ID: "C05", Level: "exploration",
-		Rule:        "on one WAF whose rules are all steerable from the request (captures, setvar/setenv, ctl changes of ruleEngine/auditEngine/auditLogParts/body access/limits/processor/force*, ruleRemoveById/range/ByTag/TargetById, pending skip, skipAfter to a missing marker, the three allow scopes, deny in phases 1-4, disk-spilled and over-limit bodies, JSON bodies incl. malformed), 1-3 predecessor transactions (each focused on one feature plus random others; some abandoned after k calls, without ProcessLogging, closed twice, or keeping a body reader) are followed by a probe transaction that dumps every collection in phases 1, 2 and 5; the probe's full outcome (per-call results, fired rules with match data, interruption, dumps, body reader contents, audit record) is compared with the same probe on a brand-new WAF. The pair runs on a locked OS thread with GC off so that the pool hands the predecessor's object to the probe. Non-trivial: object identity confirmed that the probe received the predecessor's recycled transaction; distinct by case hash.",
+		Rule:        "on one WAF whose rules are all steerable from the request (captures, setvar/setenv, ctl changes of ruleEngine/auditEngine/auditLogParts/body access/limits/processor/force*, ruleRemoveById/range/ByTag/TargetById, pending skip, skipAfter to a missing marker, the three allow scopes, deny in phases 1-4, disk-spilled and over-limit bodies, JSON bodies incl. malformed), 1-3 predecessor transactions (each focused on one feature plus random others; some abandoned after k calls, without ProcessLogging, closed twice, or keeping a body reader) are followed by a probe transaction that dumps every collection in phases 1, 2 and 5; the probe's full outcome (per-call results, fired rules with match data, interruption, dumps, body reader contents, audit record) is compared with the same probe on a brand-new WAF. One case in six raises SecArgumentsLimit and gives the predecessors 40-150 distinct argument names (collections whose storage grew), one in four gives the probe names that differ only in case (upper-case spellings of steering names included); a fifth of the batches run in a build with the documented tag coraza.rule.case_sensitive_args_keys (flavour csargs), where those names select differently. The pair runs on a locked OS thread with GC off so that the pool hands the predecessor's object to the probe. Non-trivial: object identity confirmed that the probe received the predecessor's recycled transaction; distinct by case hash.",
 		Assumptions: []string{"transaction id, timestamps, TIME*, DURATION, UNIQUE_ID and upload temp names are masked", "the audit record is observed through a writer registered with the public plugin API"},
 		Required:    []string{"reuse_confirmed", "double_close_checks", "stale_reader_checks"},
 		Plan: func(tier fw.Tier, seed int64) []fw.Batch {
@@ -542,6 +560,10 @@ func init() {
 			var bs []fw.Batch
 			for i := 0; i < n; i++ {
 				bs = append(bs, fw.Batch{Index: i, Flavour: "plain", TimeoutS: 1500})
+			}
+			// the same population in a build that treats argument names case sensitively (documented build tag)
+			for i := 0; i < n/4; i++ {
+				bs = append(bs, fw.Batch{Index: n + i, Flavour: "csargs", TimeoutS: 1500})
 			}
 			return bs
 		},
@@ -561,6 +583,31 @@ func init() {
 				}
 				c.Probe = c05GenTx(w.Rng, "", true)
 				c.AuditRelevantOnly = i%3 == 1
+				if i%6 == 2 {
+					c.ManyArgs = true
+					for k := range c.Pred {
+						ne := 40 + w.Rng.IntN(110)
+						for j := 0; j < ne; j++ {
+							c.Pred[k].Extra = append(c.Pred[k].Extra, fmt.Sprintf("m%d_%d", c05Counter(), j))
+						}
+					}
+				}
+				if i%4 == 3 || (c.ManyArgs && i%12 == 2) {
+					c.CaseNames = true
+					for _, nm := range []string{"T=1", "U=1", "t=0", "Kx=1", "kx=2", "KX=3", "D2=1", "Cap=abc", "SETX=1"} {
+						if gen.Chance(w.Rng, 0.45) {
+							c.Probe.Extra = append(c.Probe.Extra, nm)
+						}
+					}
+					if gen.Chance(w.Rng, 0.5) && !c.Probe.BodyJSON {
+						c.Probe.Body = gen.Pick(w.Rng, []string{"A=1&a=2", "a=0&A=1&b=attack", "B=attack&a=1"})
+					}
+					if gen.Chance(w.Rng, 0.3) {
+						for k := range c.Pred {
+							c.Pred[k].Extra = append(c.Pred[k].Extra, "KX=9", "kx=8", "T=0")
+						}
+					}
+				}
 				if i%5 == 4 {
 					// a DetectionOnly WAF whose predecessors mostly switch themselves to On
 					c.WafEngine = "DetectionOnly"
